@@ -49,11 +49,19 @@ def c15_case(draw, max_jobs: int = 8):
                      "before_start": draw(st.booleans())})
     fail_at = draw(st.sampled_from([None, None] + list(range(n))))
     return {"jobs": jobs, "fail_at": fail_at, "workers": draw(st.integers(1, 4)),
-            "switch": draw(st.sampled_from([1e-6, 1e-5, 1e-4, 5e-3]))}
+            "switch": draw(st.sampled_from([1e-6, 1e-5, 1e-4, 5e-3])),
+            "fail_kind": draw(st.sampled_from(["divide", "divide", "value_empty", "assert_empty", "runtime"])),
+            "enqueue_stall_ms": draw(st.sampled_from([0, 0, 0, 400]))}
 
 
-def job_config(k: int, job: Dict[str, Any], failing: bool) -> List[Dict[str, Any]]:
+def job_config(k: int, job: Dict[str, Any], failing: bool, fail_kind: str = "divide") -> List[Dict[str, Any]]:
     p = PRIMES[k % len(PRIMES)]
+    if failing and fail_kind != "divide" and job["kind"] != "collection":
+        # the pipeline raises a pre-built exception object; some have an empty message (str(exc) == "")
+        first = [{"processor": "FloatValueDataSource", "parameters": {"value": p}}] if job["kind"] == "none" else []
+        return first + [{"processor": "FloatMultiplyOperation", "parameters": {"factor": p}},
+                        {"processor": "VRaiseOp", "parameters": {"kind": fail_kind}},
+                        {"processor": "FloatCollectValueProbe", "context_key": "r"}]
     if job["kind"] == "float":
         cfg = [{"processor": "FloatMultiplyOperation", "parameters": {"factor": p}}]
         if failing:
@@ -84,6 +92,7 @@ def run_batch(case: Dict[str, Any]) -> Dict[str, Any]:
     from semantiva.pipeline import Payload, Pipeline
 
     status_pubs: List[str] = []
+    cfg_ids: Dict[Any, str] = {}
     lock = threading.Lock()
 
     class CountingTransport(InMemorySemantivaTransport):
@@ -91,6 +100,11 @@ def run_batch(case: Dict[str, Any]) -> Dict[str, Any]:
             if channel.endswith(".status"):
                 with lock:
                     status_pubs.append(channel.split(".")[1])
+            elif channel.endswith(".cfg"):
+                try:
+                    cfg_ids[context.get_value("tag")] = channel.split(".")[1]
+                except Exception:  # noqa: BLE001
+                    pass
             return super().publish(channel, data, context, metadata=metadata, require_ack=require_ack)
 
     active = [0]
@@ -107,12 +121,27 @@ def run_batch(case: Dict[str, Any]) -> Dict[str, Any]:
                 with lock:
                     active[0] -= 1
 
-    logger = Logger(level="CRITICAL") if True else None
+    stall = case.get("enqueue_stall_ms", 0) / 1000.0
+
+    class StallingLogger(Logger):
+        """The caller's logging may be slow: the thread calling enqueue() is held up while it logs 'Enqueued job'."""
+
+        def info(self, msg, *a, **kw):  # noqa: D401
+            if stall and isinstance(msg, str) and msg.startswith("Enqueued job") and threading.current_thread() is threading.main_thread() is False:
+                time.sleep(stall)
+            if stall and isinstance(msg, str) and msg.startswith("Enqueued job"):
+                time.sleep(stall)
+
+        def debug(self, *a, **kw):
+            return None
+
+    logger = Logger(level="CRITICAL")
+    master_logger = StallingLogger(level="CRITICAL") if stall else logger
     old_switch = sys.getswitchinterval()
     sys.setswitchinterval(case["switch"])
     transport = CountingTransport()
     stop = threading.Event()
-    master = QueueSemantivaOrchestrator(transport, stop_event=stop, logger=logger)
+    master = QueueSemantivaOrchestrator(transport, stop_event=stop, logger=master_logger)
     executor = RecordingExecutor()
     expected: List[Dict[str, Any]] = []
     futures = []
@@ -123,7 +152,7 @@ def run_batch(case: Dict[str, Any]) -> Dict[str, Any]:
         def enqueue(k: int) -> None:
             job = case["jobs"][k]
             failing = case["fail_at"] == k
-            cfg = job_config(k, job, failing)
+            cfg = job_config(k, job, failing, case.get("fail_kind", "divide"))
             data = observe.build_data(job["payload"])
             ctx = {"tag": k}
             # the direct run (same configuration, same payload) is the reference
@@ -132,10 +161,8 @@ def run_batch(case: Dict[str, Any]) -> Dict[str, Any]:
                 expected.append({"ok": True, "data": observe.norm_data(ref.data), "ctx": observe.norm_ctx(ref.context)})
             except Exception as exc:  # noqa: BLE001
                 expected.append({"ok": False, "exc": type(exc).__name__})
-            before = set(master.pending_futures)
             fut = master.enqueue(cfg, data=data, context=ContextType(dict(ctx)), return_future=True)
-            new = set(master.pending_futures) - before
-            job_ids.append(next(iter(new)) if len(new) == 1 else None)
+            job_ids.append(k)  # resolved to the job id after the batch (the cfg publication carries tag -> id)
             futures.append(fut)
 
         order = list(range(len(case["jobs"])))
@@ -190,7 +217,7 @@ def run_batch(case: Dict[str, Any]) -> Dict[str, Any]:
                 break
             time.sleep(0.02)
         out.update(order=early + late, done=[f.done() for f in futures], quiescent=quiescent, waited=time.time() - t0, master_alive=mt.is_alive(),
-                   status_pubs=list(status_pubs), job_ids=job_ids, expected=expected)
+                   status_pubs=list(status_pubs), job_ids=[cfg_ids.get(k) for k in job_ids], expected=expected)
         results = []
         for f in futures:
             if not f.done():
@@ -215,8 +242,11 @@ def check_case(case: Dict[str, Any], col: Collector) -> None:
     r = run_batch(case)
     n = len(case["jobs"])
     labs = ["jobs:%d" % min(n, 9), "workers:%d" % case["workers"], "switch:%g" % case["switch"]] + (["burst_with_background_traffic"] if case.get("noise") else [])
+    if case.get("enqueue_stall_ms"):
+        labs.append("enqueue_stalled")
     if case["fail_at"] is not None:
         labs.append("failing_job")
+        labs.append("fail_kind:" + case.get("fail_kind", "divide"))
         labs.append("fail_at:%s" % ("first" if case["fail_at"] == 0 else "last" if case["fail_at"] == n - 1 else "middle"))
     for j in case["jobs"]:
         labs.append("payload:" + j["kind"] + (":empty" if j["kind"] == "collection" and not j["payload"]["v"] else ""))
@@ -324,4 +354,4 @@ def shrink_candidates(case):
 
 
 def label_requirements(tier: str) -> Dict[str, Any]:
-    return {"failing_job": 0.2, "workers:1": 1, "workers:4": 1, "payload:collection:empty": 2, "payload:none": 3}
+    return {"failing_job": 0.2, "enqueue_stalled": 3, "fail_kind:value_empty": 1, "workers:1": 1, "workers:4": 1, "payload:collection:empty": 2, "payload:none": 3}
